@@ -18,15 +18,22 @@ RULE = ("grid: every pair of prefix lengths (len x, len y) x 7 positions of x's 
 LEVEL_TEXT = ("Theorems (Lean 4, all address/prefix pairs, any address width): 'x in y' as computed by IPv4Obj.__contains__ and "
               "IPv6Obj.__contains__ holds iff y's prefix is not longer and the leading len(y) bits agree, iff x's address interval "
               "lies inside y's, iff every address of x's network is an address of y's; it is reflexive and transitive. "
-              "collapse_addresses is compared with ipaddress.collapse_addresses and with an interval oracle on random lists.")
+              "collapse_addresses (objects mapped to their networks, then the stdlib dict-merge loop and covered-network pass, modelled "
+              "in Lean): for every list of objects the output covers exactly the addresses of the input networks, is well formed, "
+              "ascending and pairwise disjoint, has no two networks with the same supernet and none inside another, and every network "
+              "inside the covered set lies in one output network (canonical minimal cover). The model is additionally compared with "
+              "ipaddress.collapse_addresses and an interval oracle on random lists.")
 LEVEL_NOTE = ("Trusted: Lean kernel; axioms propext/Classical.choice/Quot.sound only; the correspondence harness; the value-level "
               "reading of an object as (int(ip_object), network_object). Proved about the model, measured against the code; "
-              "the stdlib ipaddress module is the third, independent voice.")
+              "the stdlib ipaddress module is the third, independent voice. For collapse_addresses the proved object is the Lean "
+              "transcription of ipaddress._collapse_addresses_internal (dict as association list, fuel-bounded loop proved to need at "
+              "most 2*len rounds); its agreement with the real stdlib routine is measured (collapse_agrees), not proved.")
 EXHAUSTIVE = {"quick": False, "thorough": True}
 ASSUMPTIONS = [
     "an object is read as (int(ip_object), int(network_object.network_address), network_object.prefixlen); text forms are C11",
     "ipaddress network_address = ip & (ALL_ONES ^ (ALL_ONES >> prefixlen)) (re-implemented in the model, proved equal to clearing the host bits)",
     "objects are non-empty and of one family per comparison",
+    "collapse_addresses: the stdlib routine is the Lean transcription collapseNets (agreement with ipaddress measured on every run)",
 ]
 TRUSTED = ["stdlib ipaddress (used as the independent oracle: subnet_of, collapse_addresses)"]
 
